@@ -88,6 +88,16 @@ def ui_real_check(chk, ui, table_ok):
         dis = sum(1 for a, b in zip(real, out) if a != b) + abs(len(real) - len(out))
         det = [{"line": ln[:200], "real": a, "lean": b} for ln, a, b in zip(lines, real, out) if a != b][:5]
         chk.correspondence("UI commands: real Dispatcher vs Lean model", n, dis, distribution=dist, detail=det or None)
+        seen_topics = set()
+        for m, a, b in zip(meta, real, out):
+            if m is not None and a != b and b.startswith("tell ") and m[0] not in seen_topics:
+                seen_topics.add(m[0])
+                c = m[1]
+                chk.violation(
+                    f"ui-command-misdelivered:{m[0]}",
+                    f"the sitemap widget of item {c['item']} (poupool.sitemap:{c['line']}) sends {c['payload']!r} on {m[0]}; the dispatcher must forward it as `{b}` but does `{a}`",
+                    {"kind": "ui", "what": "command", "topic": m[0], "payload": c["payload"], "item": c["item"], "real": a, "specified": b, "how": "./check C14 --replay <this file>"},
+                )
     else:
         chk.extra["ui_real_check"] = dist
     for (m, r) in [(m, r) for m, r in zip(meta, real) if m][:: max(1, n // 4)][:4]:
